@@ -89,9 +89,9 @@ CLAIMS["C14"] = dict(
 
 CLAIMS["C01"] = dict(
   level="other",
-  technique="static analysis: whole-module inventories over go/ssa and the VTA call graph — loop termination variants (P1–P5 + reviewed table with re-checked conditions), call-graph SCCs, explicit panics, nil-contradiction and nil-call guards, divisor guards, input-buffer length guards, read-error propagation, channel-send protocol",
-  text="Decides necessary conditions of 'never crashes, spins or deadlocks' for every function reachable from Readline, the commands and the exported API: each loop has a termination variant or a reviewed ranking argument, each recursion a checked bound, no explicit panic, no unguarded nil call / nil dereference after a nil comparison / variable division / input-buffer index, read errors leave the wait loop and reach the caller, sends cannot block in the sequential flow (the cursor-report hand-off is a known finding). Full panic-freedom of all index/slice sites is not decided.",
-  ref="§5 C01")
+  technique="static analysis: whole-module inventories over go/ssa and the VTA call graph — loop termination variants (P1–P5 + reviewed table with re-checked conditions), call-graph SCCs, explicit panics, nil-contradiction and nil-call guards, divisor guards, input-buffer length guards, read-error propagation, channel-send protocol; zone-domain abstract interpretation (difference constraints, contracts, state getters, class invariants, effect summaries over the call graph) proving every index and slice bound of the commands and editing primitives non-negative",
+  text="Decides necessary conditions of 'never crashes, spins or deadlocks' for every function reachable from Readline, the commands and the exported API: each loop has a termination variant or a reviewed ranking argument, each recursion a checked bound, no explicit panic, no unguarded nil call / nil dereference after a nil comparison / variable division / input-buffer index, read errors leave the wait loop and reach the caller, sends cannot block in the sequential flow (the cursor-report hand-off is a known finding); no index or slice bound in the root package and internal/core can be negative (784 obligations, proved by the bounds prover or listed with a reviewed reason). Upper bounds and lo <= hi of those sites, and the other packages' sites, are not decided.",
+  ref="§5 C01, §13")
 
 CLAIMS["C05"] = dict(
   level="other",
